@@ -351,7 +351,8 @@ Proof.
 Qed.
 
 (* ================================================================== the argv front end refines the specification *)
-Definition a_inv (s : astate) (gi go : bool) : Prop := a_table s = MAIN /\ a_gave_input s = gi /\ a_gave_output s = go.
+Definition a_inv (s : astate) (gi go : bool) : Prop :=
+  a_table s = MAIN /\ a_gave_input s = gi /\ a_gave_output s = go /\ a_used_enc_pw s = false.
 
 Fixpoint a_emits (cs : list cfg_call) (s : astate) : astate :=
   match cs with [] => s | c :: r => a_emits r (a_emit c s) end.
@@ -368,8 +369,8 @@ Proof.
 Qed.
 
 Lemma a_emits_fields : forall cs s, a_table (a_emits cs s) = a_table s /\ a_gave_input (a_emits cs s) = a_gave_input s /\
-                                    a_gave_output (a_emits cs s) = a_gave_output s.
-Proof. induction cs; simpl; intros s; [auto|]. destruct (IHcs (a_emit a s)) as [H1 [H2 H3]]. rewrite H1, H2, H3. destruct s; auto. Qed.
+                                    a_gave_output (a_emits cs s) = a_gave_output s /\ a_used_enc_pw (a_emits cs s) = a_used_enc_pw s.
+Proof. induction cs; simpl; intros s; [auto|]. destruct (IHcs (a_emit a s)) as [H1 [H2 [H3 H4]]]. rewrite H1, H2, H3, H4. destruct s; auto. Qed.
 
 Lemma a_emits_app : forall c1 c2 s, a_emits (c1 ++ c2) s = a_emits c2 (a_emits c1 s).
 Proof. induction c1; simpl; intros c2 s; [reflexivity|apply IHc1]. Qed.
@@ -491,8 +492,9 @@ Qed.
 
 Lemma close_table_fields : forall t c s,
   a_table (a_set_table t (a_emit c s)) = t /\ a_gave_input (a_set_table t (a_emit c s)) = a_gave_input s /\
-  a_gave_output (a_set_table t (a_emit c s)) = a_gave_output s /\ a_calls (a_set_table t (a_emit c s)) = c :: a_calls s.
-Proof. intros t c s. destruct s. cbn. auto. Qed.
+  a_gave_output (a_set_table t (a_emit c s)) = a_gave_output s /\ a_calls (a_set_table t (a_emit c s)) = c :: a_calls s /\
+  a_used_enc_pw (a_set_table t (a_emit c s)) = a_used_enc_pw s.
+Proof. intros t c s. destruct s. cbn. auto 6. Qed.
 
 Definition E_GLOBAL := mk_aentry MAIN B"global" KBare [] (TManual B"argGlobal").
 Definition E_END_GLOBAL := mk_aentry B"global" B"--" KEnd [] (TManual B"argEndGlobal").
@@ -516,16 +518,91 @@ Proof.
   change (bstr_eqb B"global" MAIN) with false. cbv beta iota. rewrite H3. reflexivity.
 Qed.
 
+(* ---- --encrypt user owner bits <options> -- *)
+Definition ENC0 : cfg_call := CCall C_MAIN B"encrypt" [B"0"; []; []].
+Definition E_ENCRYPT := mk_aentry MAIN B"encrypt" KBare [] (TManual B"argEncrypt").
+Lemma lookup_encrypt :
+  a_lookup MAIN B"encrypt" = Some E_ENCRYPT /\ a_lookup B"help" B"encrypt" = None /\
+  a_lookup_pos B"encryption" = Some (mk_aentry B"encryption" [] KPositional [] (TManual B"argEncPositional")) /\
+  a_lookup B"40-bit-encryption" B"--" = Some (mk_aentry B"40-bit-encryption" B"--" KEnd [] (TManual B"argEnd40BitEncryption")) /\
+  a_lookup B"128-bit-encryption" B"--" = Some (mk_aentry B"128-bit-encryption" B"--" KEnd [] (TManual B"argEnd128BitEncryption")) /\
+  a_lookup B"256-bit-encryption" B"--" = Some (mk_aentry B"256-bit-encryption" B"--" KEnd [] (TManual B"argEnd256BitEncryption")).
+Proof. vm_compute. repeat split; reflexivity. Qed.
+
+Lemma a_step_encrypt : forall files sole s, a_table s = MAIN ->
+  a_step files sole B"--encrypt" s = inl (AOk (a_set_table B"encryption" (a_set_acc [] (a_emit ENC0 s)))).
+Proof.
+  intros files sole s Ht. destruct lookup_encrypt as [H1 [H2 _]].
+  change (B"--encrypt") with (45 :: 45 :: 101 :: [110; 99; 114; 121; 112; 116]).
+  rewrite (a_step_option files sole s 101 [110; 99; 114; 121; 112; 116] B"encrypt" false [] E_ENCRYPT); auto. rewrite Ht. exact H1.
+Qed.
+
+Lemma a_step_enc_positional : forall files sole w s, positional_word w = true -> a_table s = B"encryption" ->
+  a_step files sole w s = inl (a_manual files B"argEncPositional" w s).
+Proof.
+  intros files sole w s Hp Ht. destruct (positional_word_facts w Hp) as [H1 H2]. destruct lookup_encrypt as [_ [_ [H3 _]]].
+  unfold a_step. rewrite H1, H2, Ht, H3. reflexivity.
+Qed.
+
+Lemma a_manual_enc_positional : forall files w s,
+  a_manual files B"argEncPositional" w s =
+  if a_used_enc_pw s then AErr s 5 else
+  let acc := a_acc s ++ [w] in
+  match acc with
+  | u :: o :: l :: _ => arg_enc_bits l (a_set_acc [] (a_set_pw u o (a_used_enc_pw s) s))
+  | _ => AOk (a_set_acc acc s)
+  end.
+Proof. intros. reflexivity. Qed.
+
+(* the three positional words after --encrypt, from the state --encrypt leaves *)
+Lemma a_loop_enc_head : forall files sole u o bits rest s0,
+  valid_bits bits = true -> positional_word u = true -> positional_word o = true ->
+  a_table s0 = B"encryption" -> a_acc s0 = [] -> a_used_enc_pw s0 = false ->
+  a_loop files sole (u :: o :: bits :: rest) s0 =
+  a_loop files sole rest (a_emit (CCall C_MAIN B"encrypt" [bits; u; o]) (a_set_table (enc_table bits) (a_set_acc [] (a_set_pw u o false s0)))).
+Proof.
+  intros files sole u o bits rest s0 Hb Hu Ho Ht Hacc Hused.
+  assert (Hpb : positional_word bits = true).
+  { unfold valid_bits in Hb. apply orb_true_iff in Hb. destruct Hb as [Hb|Hb]; [apply orb_true_iff in Hb; destruct Hb as [Hb|Hb]|];
+      apply bstr_eqb_eq in Hb; subst; reflexivity. }
+  destruct s0 as [tb acc us ow pf pr used gi go calls]. cbn in Ht, Hacc, Hused. subst tb acc used.
+  cbn [a_loop].
+  rewrite a_step_enc_positional by (first [exact Hu | reflexivity]). rewrite a_manual_enc_positional. cbn [a_used_enc_pw a_acc app a_set_acc].
+  cbn [a_loop].
+  rewrite a_step_enc_positional by (first [exact Ho | reflexivity]). rewrite a_manual_enc_positional. cbn [a_used_enc_pw a_acc app a_set_acc].
+  cbn [a_loop].
+  rewrite a_step_enc_positional by (first [exact Hpb | reflexivity]). rewrite a_manual_enc_positional. cbn [a_used_enc_pw a_acc app a_set_acc a_set_pw].
+  unfold valid_bits in Hb. apply orb_true_iff in Hb. destruct Hb as [Hb|Hb]; [apply orb_true_iff in Hb; destruct Hb as [Hb|Hb]|];
+    apply bstr_eqb_eq in Hb; subst bits; reflexivity.
+Qed.
+
+Lemma a_step_end_enc : forall files sole bits s, valid_bits bits = true -> a_table s = enc_table bits ->
+  a_step files sole B"--" s = inl (AOk (a_set_table MAIN (a_emit (CCall C_ENC B"endEncrypt" []) s))).
+Proof.
+  intros files sole bits s Hb Ht. destruct lookup_encrypt as [_ [_ [_ [H40 [H128 H256]]]]].
+  unfold a_step. change (bstr_eqb B"--" B"--") with true. cbv beta iota. rewrite Ht.
+  unfold valid_bits in Hb. apply orb_true_iff in Hb. destruct Hb as [Hb|Hb]; [apply orb_true_iff in Hb; destruct Hb as [Hb|Hb]|];
+    apply bstr_eqb_eq in Hb; subst bits.
+  - change (bstr_eqb (enc_table B"40") MAIN) with false. cbv beta iota. change (enc_table B"40") with B"40-bit-encryption". rewrite H40. reflexivity.
+  - change (bstr_eqb (enc_table B"128") MAIN) with false. cbv beta iota. change (enc_table B"128") with B"128-bit-encryption". rewrite H128. reflexivity.
+  - change (bstr_eqb (enc_table B"256") MAIN) with false. cbv beta iota. change (enc_table B"256") with B"256-bit-encryption". rewrite H256. reflexivity.
+Qed.
+
+(* the calls the argv front end makes for an item: those of its denotation, preceded for --encrypt by the call encrypt(0, "", "")
+   that ArgParser::argEncrypt makes before the key length is known (it is overwritten by the call that follows) *)
+Definition argv_calls_item (it : item) : list cfg_call :=
+  match it with IEncrypt _ _ _ _ => ENC0 :: fst (denote_item it) | _ => fst (denote_item it) end.
+
 (* one item of a job: the parser makes exactly the calls of its denotation (and stops with a usage error iff it is not acceptable) *)
 Lemma a_loop_item : forall files sole it rest s gi go,
   wf_item argv_table it -> a_inv s gi go -> pos_ok it gi go = true ->
   exists k s', (snd (denote_item it) = true -> a_inv s' (fst (pos_next it gi go)) (snd (pos_next it gi go))) /\
-               a_calls s' = rev (fst (denote_item it)) ++ a_calls s /\
+               a_calls s' = rev (argv_calls_item it) ++ a_calls s /\
                a_loop files sole (argv_of_item it ++ rest) s =
                if snd (denote_item it) then a_loop files sole rest s' else mk_fe_res (rev' (a_calls s')) (EFront k).
 Proof.
-  intros files sole it rest s gi go Hwf [Ht [Hgi Hgo]] Hpos.
-  destruct it as [e v|e vs|f|f| | |l].
+  intros files sole it rest s gi go Hwf [Ht [Hgi [Hgo Hused]]] Hpos.
+  destruct it as [e v|e vs|f|f| | |l|u o bits l]; cbn [argv_calls_item].
   - (* IOpt *)
     destruct (wf_item_main_opt (IOpt e v) e (or_introl (ex_intro _ v eq_refl)) Hwf) as [Hin [Hm Htb]].
     pose proof (entry_ok_of_wf e Hin Hm) as Hok. rewrite <- Htb in Ht.
@@ -572,18 +649,46 @@ Proof.
     rewrite <- app_assoc. cbn [app].
     destruct (a_loop_subs files sole B"global" l Hwf (B"--" :: rest) s1 Ht1) as [k Hk].
     destruct (denote_subs l) as [cs ok]. cbn [fst snd] in *.
-    destruct (a_emits_fields cs s1) as [F1 [F2 F3]].
+    destruct (a_emits_fields cs s1) as [F1 [F2 [F3 F4]]].
     destruct ok.
     + exists 0, (a_set_table MAIN (a_emit (CCall C_GLOBAL B"endGlobal" []) (a_emits cs s1))).
-      destruct (close_table_fields MAIN (CCall C_GLOBAL B"endGlobal" []) (a_emits cs s1)) as [G1 [G2 [G3 G4]]].
+      destruct (close_table_fields MAIN (CCall C_GLOBAL B"endGlobal" []) (a_emits cs s1)) as [G1 [G2 [G3 [G4 G5]]]].
       split.
-      { intros _. unfold a_inv. rewrite G1, G2, G3, F2, F3. unfold s1. destruct s; cbn in *. auto. }
+      { intros _. unfold a_inv. rewrite G1, G2, G3, G5, F2, F3, F4. unfold s1. destruct s; cbn in *. auto. }
       split.
       { rewrite G4. rewrite a_emits_calls. unfold s1. destruct s; cbn. rewrite rev_app_distr. cbn. rewrite <- app_assoc. reflexivity. }
       etransitivity; [exact Hk|]. cbn [a_loop]. rewrite (a_step_end_global files sole (a_emits cs s1)) by (rewrite F1; exact Ht1). reflexivity.
     + exists k, (a_emits cs s1). split; [discriminate|].
       split; [|exact Hk].
       rewrite a_emits_calls. unfold s1. destruct s; cbn. rewrite app_nil_r. rewrite <- app_assoc. reflexivity.
+  - (* IEncrypt *)
+    cbn [wf_item] in Hwf. destruct Hwf as [Hb [Hu [Ho Hl]]].
+    assert (Hsubs : wf_subs (enc_table bits) l).
+    { unfold wf_subs. eapply Forall_impl; [|exact Hl]. intros p [H1 [H2 _]]. auto. }
+    set (s0 := a_set_table B"encryption" (a_set_acc [] (a_emit ENC0 s))).
+    set (s1 := a_emit (CCall C_MAIN B"encrypt" [bits; u; o]) (a_set_table (enc_table bits) (a_set_acc [] (a_set_pw u o false s0)))).
+    set (words := map (fun p : aentry * bstr => word_of (fst p) (snd p)) l).
+    assert (Hhead : a_loop files sole (argv_of_item (IEncrypt u o bits l) ++ rest) s = a_loop files sole (words ++ B"--" :: rest) s1).
+    { cbn [argv_of_item app a_loop]. rewrite (a_step_encrypt files sole s Ht). fold s0. fold words.
+      rewrite <- app_assoc. cbn [app].
+      apply (a_loop_enc_head files sole u o bits (words ++ B"--" :: rest) s0 Hb Hu Ho); unfold s0; destruct s; cbn in *; auto. }
+    assert (Ht1 : a_table s1 = enc_table bits) by (unfold s1, s0; destruct s; reflexivity).
+    destruct (a_loop_subs files sole (enc_table bits) l Hsubs (B"--" :: rest) s1 Ht1) as [k Hk]. fold words in Hk.
+    cbn [denote_item pos_next fst snd].
+    destruct (denote_subs l) as [cs ok]. cbn [fst snd] in *.
+    destruct (a_emits_fields cs s1) as [F1 [F2 [F3 F4]]].
+    destruct ok.
+    + exists 0, (a_set_table MAIN (a_emit (CCall C_ENC B"endEncrypt" []) (a_emits cs s1))).
+      destruct (close_table_fields MAIN (CCall C_ENC B"endEncrypt" []) (a_emits cs s1)) as [G1 [G2 [G3 [G4 G5]]]].
+      split.
+      { intros _. unfold a_inv. rewrite G1, G2, G3, G5, F2, F3, F4. unfold s1, s0. destruct s; cbn in *. auto. }
+      split.
+      { rewrite G4. rewrite a_emits_calls. unfold s1, s0. destruct s; cbn. rewrite rev_app_distr. cbn. rewrite <- !app_assoc. reflexivity. }
+      etransitivity; [exact Hhead|]. etransitivity; [exact Hk|].
+      cbn [a_loop]. rewrite (a_step_end_enc files sole bits (a_emits cs s1) Hb) by (rewrite F1; exact Ht1). reflexivity.
+    + exists k, (a_emits cs s1). split; [discriminate|].
+      split; [|etransitivity; [exact Hhead|exact Hk]].
+      rewrite a_emits_calls. unfold s1, s0. destruct s; cbn. rewrite app_nil_r. rewrite <- !app_assoc. reflexivity.
 Qed.
 
 Definition CHECK : cfg_call := CCall C_MAIN B"checkConfiguration" [].
@@ -594,18 +699,25 @@ Definition res_is (r : fe_res) (pre cs : list cfg_call) (ok : bool) : Prop :=
   if ok then r = mk_fe_res (pre ++ cs ++ [CHECK]) EFin
   else exists k, r = mk_fe_res (pre ++ cs) (EFront k).
 
+(* the calls of the argv front end for a job (up to and including the first unacceptable item) *)
+Fixpoint argv_calls (j : list item) : list cfg_call :=
+  match j with
+  | [] => []
+  | it :: r => if snd (denote_item it) then argv_calls_item it ++ argv_calls r else argv_calls_item it
+  end.
+
 Lemma a_loop_job : forall files sole j s gi go,
   Forall (wf_item argv_table) j -> wf_pos j gi go = true -> a_inv s gi go ->
-  res_is (a_loop files sole (render_argv j) s) (rev (a_calls s)) (fst (denote_items j)) (snd (denote_items j)).
+  res_is (a_loop files sole (render_argv j) s) (rev (a_calls s)) (argv_calls j) (snd (denote_items j)).
 Proof.
   intros files sole. induction j as [|it j IH]; intros s gi go Hwf Hpos Hinv.
-  - unfold res_is. cbn [render_argv flat_map denote_items fst snd a_loop]. destruct Hinv as [Ht _]. rewrite Ht.
+  - unfold res_is. cbn [render_argv flat_map denote_items argv_calls fst snd a_loop]. destruct Hinv as [Ht _]. rewrite Ht.
     rewrite bstr_eqb_refl. rewrite rev'_rev. cbn [rev app]. reflexivity.
   - pose proof (Forall_inv Hwf) as Hit. pose proof (Forall_inv_tail Hwf) as Hj.
     cbn [wf_pos] in Hpos. apply andb_true_iff in Hpos. destruct Hpos as [Hp1 Hp2].
     cbn [render_argv flat_map].
     destruct (a_loop_item files sole it (flat_map argv_of_item j) s gi go Hit Hinv Hp1) as [k [s' [Hinv' [Hcalls Heq]]]].
-    rewrite Heq. cbn [denote_items].
+    rewrite Heq. cbn [denote_items argv_calls].
     destruct (denote_item it) as [cs ok] eqn:Hd. cbn [fst snd] in *.
     destruct ok.
     + specialize (IH _ _ _ Hj Hp2 (Hinv' eq_refl)). fold (render_argv j).
@@ -620,15 +732,16 @@ Qed.
 (* FULL STATEMENT of nested_equivalent (DESIGN §5 C19): for every abstract job over ALL option tables (main options and the nested
    tables pages, encrypt, overlay/underlay, attachments, global, set-page-labels) the two front ends make the same Config calls.
    PROVED below for jobs made of: every main-table option bound to a Config method (given once, or repeatable) with ANY value
-   string (acceptable or not), the positional input/output files, --empty and --replace-input, and the nested table --global ... -- /
-   "global": {...} with any of its options and any values.  Not covered by the proof (covered by the model/implementation
-   correspondence and the end-to-end runs): the nested tables pages, encrypt, overlay/underlay, attachments, set-page-labels, whose
-   hand-written handlers are modelled in Sys/JobFront.v. *)
+   string (acceptable or not), the positional input/output files, --empty and --replace-input, the nested table --global ... -- /
+   "global": {...} and the nested tables of --encrypt user owner 40|128|256 ... -- / "encrypt": {...} with any of their options and
+   any values (minus the two 40-bit options of tables_equivalent_refuted).  Not covered by the proof (covered by the
+   model/implementation correspondence and the end-to-end runs): the nested tables pages, overlay/underlay, attachments,
+   set-page-labels, whose hand-written handlers are modelled in Sys/JobFront.v. *)
 Lemma argv_refines_spec_partial_lemma : forall files j, wf_job argv_table j ->
-  res_is (front_argv files (render_argv j)) [] (fst (denote_items j)) (snd (denote_items j)).
+  res_is (front_argv files (render_argv j)) [] (argv_calls j) (snd (denote_items j)).
 Proof.
   intros files j [Hwf Hpos]. unfold front_argv.
-  apply (a_loop_job files _ j a_init false false Hwf Hpos). unfold a_inv. auto.
+  apply (a_loop_job files _ j a_init false false Hwf Hpos). unfold a_inv. cbn. auto.
 Qed.
 
 (* ================================================================== the JSON front end refines the specification *)
@@ -871,20 +984,20 @@ Proof. vm_compute. reflexivity. Qed.
 Definition member_of (p : aentry * bstr) : bstr * jjv := (camel (ae_flag (fst p)), JJStr (snd p)).
 
 (* the members standing for the options of a nested table: accepted by the schema, and handled with the calls of denote_subs *)
-Lemma dict_subs : forall t dp,
-  (forall e, In e argv_table -> sub_opt t e = true -> json_sub_entry_ok dp e = true) ->
-  forall l, wf_subs t l -> forall k0 dp', dp = k0 :: dp' ->
+Lemma dict_subs : forall t dp l,
+  Forall (fun p => In (fst p) argv_table /\ sub_opt t (fst p) = true /\ json_sub_entry_ok dp (fst p) = true) l ->
+  forall k0 dp', dp = k0 :: dp' ->
   sub_members_ok dp (map member_of l) = true /\
   forall s, exists k, dict_go dp (map member_of l) s =
             if snd (denote_subs l) then JOk (j_emits (fst (denote_subs l)) s)
             else JErr (j_emits (fst (denote_subs l)) s) (EFront k).
 Proof.
-  intros t dp Hfacts. induction l as [|[e v] l IH]; intros Hwf k0 dp' Hdp.
+  intros t dp. induction l as [|[e v] l IH]; intros Hwf k0 dp' Hdp.
   - split; [reflexivity|]. intros s. exists 0. reflexivity.
-  - pose proof (Forall_inv Hwf) as [Hin Hsub]. pose proof (Forall_inv_tail Hwf) as Hl. cbn [fst snd] in *.
+  - pose proof (Forall_inv Hwf) as [Hin [Hsub Hfact]]. pose proof (Forall_inv_tail Hwf) as Hl. cbn [fst snd] in *.
     destruct (sub_opt_cfg_opt _ e Hsub) as [Hm Htb].
     pose proof (argv_ok_shape e (entry_ok_of_wf e Hin Hm)) as Hshape.
-    destruct (scalar_facts_inv _ _ _ _ (Hfacts e Hin Hsub)) as [Hc [Hok Hn]].
+    destruct (scalar_facts_inv _ _ _ _ Hfact) as [Hc [Hok Hn]].
     destruct (scalar_ok_on_inv _ _ Hok) as [Hne _].
     destruct (IH Hl k0 dp' Hdp) as [IH1 IH2].
     split.
@@ -960,6 +1073,91 @@ Proof.
   - cbn [j_emits]. rewrite app_nil_r. reflexivity.
 Qed.
 
+(* ---- "encrypt": { "<bits>bit": {...}, "ownerPassword": o, "userPassword": u } *)
+Definition ENC : bstr := B"encrypt".
+Definition OWNERPW : bstr := B"ownerPassword".
+Definition USERPW : bstr := B"userPassword".
+
+Lemma encrypt_node_facts :
+  schema_has_child [] ENC = true /\ schema_node [ENC] = Some SDict /\ is_nil (j_entries [ENC]) = false /\
+  find is_jmanual (j_entries [ENC]) = None /\
+  find is_jdict (j_entries [ENC]) = Some (mk_jentry [ENC] JDict [] (TManual B"beginEncrypt")) /\
+  schema_has_child [ENC] OWNERPW = true /\ schema_node [ENC; OWNERPW] = Some SString /\ is_nil (j_entries [ENC; OWNERPW]) = false /\
+  find is_jmanual (j_entries [ENC; OWNERPW]) = Some (mk_jentry [ENC; OWNERPW] JManual [] (TManual B"setupEncryptOwnerPassword")) /\
+  schema_has_child [ENC] USERPW = true /\ schema_node [ENC; USERPW] = Some SString /\ is_nil (j_entries [ENC; USERPW]) = false /\
+  find is_jmanual (j_entries [ENC; USERPW]) = Some (mk_jentry [ENC; USERPW] JManual [] (TManual B"setupEncryptUserPassword")).
+Proof. vm_compute. repeat split; reflexivity. Qed.
+
+Lemma j_handle_ignore : forall p x s jm, find is_jmanual (j_entries p) = Some jm -> is_ignore (handler_name jm) = true ->
+  j_handle p (JJStr x) s = JOk s.
+Proof. intros. rewrite j_handle_str_eq. unfold j_string_at. rewrite H. rewrite H0. reflexivity. Qed.
+
+Lemma encrypt_member : forall (key hkey bits u o : bstr) members cs (ok : bool) kk s,
+  schema_has_child [ENC] key = true -> schema_node [ENC; key] = Some SDict -> is_nil (j_entries [ENC; key]) = false ->
+  find is_jmanual (j_entries [ENC; key]) = None ->
+  find is_jdict (j_entries [ENC; key]) = Some (mk_jentry [ENC; key] JDict [] (TManual hkey)) ->
+  (forall l s, j_begin_dict hkey l s = JOk s) -> (forall s, j_end_dict hkey s = JOk s) ->
+  j_begin_dict B"beginEncrypt" [(key, JJObj members); (OWNERPW, JJStr o); (USERPW, JJStr u)] s =
+    JOk (j_emit (CCall C_MAIN B"encrypt" [bits; u; o]) s) ->
+  sub_members_ok [ENC; key] members = true ->
+  dict_go [ENC; key] members (j_emit (CCall C_MAIN B"encrypt" [bits; u; o]) s) =
+    (if ok then JOk (j_emits cs (j_emit (CCall C_MAIN B"encrypt" [bits; u; o]) s))
+     else JErr (j_emits cs (j_emit (CCall C_MAIN B"encrypt" [bits; u; o]) s)) (EFront kk)) ->
+  let L := [(key, JJObj members); (OWNERPW, JJStr o); (USERPW, JJStr u)] in
+  (if schema_has_child [] ENC then check_schema [ENC] (JJObj L) else false) = true /\
+  j_entries [ENC] <> [] /\
+  j_handle [ENC] (JJObj L) s =
+    if ok then JOk (j_emits (CCall C_MAIN B"encrypt" [bits; u; o] :: cs ++ [CCall C_ENC B"endEncrypt" []]) s)
+    else JErr (j_emits (CCall C_MAIN B"encrypt" [bits; u; o] :: cs ++ []) s) (EFront kk).
+Proof.
+  intros key hkey bits u o members cs ok kk s K1 K2 K3 K4 K5 Kb Ke Hbegin Hsub Hgo L.
+  destruct encrypt_node_facts as [E1 [E2 [E3 [E4 [E5 [O1 [O2 [O3 [O4 [U1 [U2 [U3 U4]]]]]]]]]]]].
+  split.
+  { rewrite E1. rewrite (check_schema_obj ENC [] _ E2). unfold L. cbn [sub_members_ok app].
+    rewrite K1, O1, U1. rewrite (check_schema_obj ENC [key] _ K2). rewrite Hsub.
+    rewrite !check_schema_str. cbv beta iota. rewrite O2, U2. reflexivity. }
+  split.
+  { intro H. rewrite H in E3. discriminate. }
+  rewrite j_handle_obj_eq. rewrite E4, E5. cbn [handler_name je_target]. unfold dict_walk.
+  unfold L. rewrite Hbegin.
+  set (s1 := j_emit (CCall C_MAIN B"encrypt" [bits; u; o]) s) in *.
+  rewrite dict_go_cons. cbn [app].
+  destruct (j_entries [ENC; key]) as [|je0 es0] eqn:Hes; [discriminate|]. rewrite <- Hes in K4, K5.
+  rewrite j_handle_obj_eq. rewrite K4, K5. cbn [handler_name je_target]. unfold dict_walk.
+  rewrite Kb. rewrite Hgo. destruct ok.
+  - rewrite Ke.
+    rewrite dict_go_cons. cbn [app].
+    destruct (j_entries [ENC; OWNERPW]) as [|je1 es1] eqn:Hes1; [discriminate|]. rewrite <- Hes1 in O4.
+    rewrite (j_handle_ignore _ o _ _ O4 eq_refl).
+    rewrite dict_go_cons. cbn [app].
+    destruct (j_entries [ENC; USERPW]) as [|je2 es2] eqn:Hes2; [discriminate|]. rewrite <- Hes2 in U4.
+    rewrite (j_handle_ignore _ u _ _ U4 eq_refl).
+    rewrite dict_go_nil.
+    change (j_end_dict B"beginEncrypt" (j_emits cs s1)) with (JOk (j_emit (CCall C_ENC B"endEncrypt" []) (j_emits cs s1))).
+    unfold s1. cbn [j_emits]. rewrite j_emits_app. reflexivity.
+  - unfold s1. cbn [j_emits]. rewrite app_nil_r. reflexivity.
+Qed.
+
+Definition enc_nd (t : bstr) (e : aentry) : bool := sub_opt t e && negb (divergent e).
+
+Lemma enc_key_facts : forall bits, valid_bits bits = true ->
+  exists hkey,
+  schema_has_child [ENC] (enc_key bits) = true /\ schema_node [ENC; enc_key bits] = Some SDict /\
+  is_nil (j_entries [ENC; enc_key bits]) = false /\ find is_jmanual (j_entries [ENC; enc_key bits]) = None /\
+  find is_jdict (j_entries [ENC; enc_key bits]) = Some (mk_jentry [ENC; enc_key bits] JDict [] (TManual hkey)) /\
+  (forall l s, j_begin_dict hkey l s = JOk s) /\ (forall s, j_end_dict hkey s = JOk s) /\
+  (forall members u o s,
+     j_begin_dict B"beginEncrypt" [(enc_key bits, JJObj members); (OWNERPW, JJStr o); (USERPW, JJStr u)] s =
+     JOk (j_emit (CCall C_MAIN B"encrypt" [bits; u; o]) s)) /\
+  forallb (json_sub_entry_ok [ENC; enc_key bits]) (filter (enc_nd (enc_table bits)) argv_table) = true.
+Proof.
+  intros bits Hb. unfold valid_bits in Hb. apply orb_true_iff in Hb. destruct Hb as [Hb|Hb]; [apply orb_true_iff in Hb; destruct Hb as [Hb|Hb]|];
+    apply bstr_eqb_eq in Hb; subst bits.
+  - exists B"beginEncrypt40bit". vm_compute. repeat split; reflexivity.
+  - exists B"beginEncrypt128bit". vm_compute. repeat split; reflexivity.
+  - exists B"beginEncrypt256bit". vm_compute. repeat split; reflexivity.
+Qed.
+
 (* one member of the job object: accepted by the schema, and handled with exactly the calls of its denotation *)
 Lemma j_member : forall it s, wf_item argv_table it ->
   let k := fst (json_of_item it) in let v := snd (json_of_item it) in
@@ -971,7 +1169,7 @@ Lemma j_member : forall it s, wf_item argv_table it ->
 Proof.
   intros it s Hwf. destruct manual_key_facts as
     [M1 [M2 [M3 [M4 [N1 [N2 [N3 [N4 [C1 [C2 [C3 [C4 [S1 [S2 [S3 S4]]]]]]]]]]]]]]].
-  destruct it as [e v|e vs|f|f| | |l]; cbn [json_of_item fst snd denote_item].
+  destruct it as [e v|e vs|f|f| | |l|u o bits l]; cbn [json_of_item fst snd denote_item].
   - (* IOpt *)
     destruct Hwf as [Hin Hs].
     assert (Hm0 : main_opt e = true) by (unfold main_opt; rewrite Hs; reflexivity).
@@ -1009,9 +1207,11 @@ Proof.
   - (* IGlobal *)
     cbn [wf_item] in Hwf. fold (wf_subs B"global" l) in Hwf.
     destruct global_node_facts as [G1 [G2 [G3 [G4 G5]]]].
-    assert (Hfacts : forall e, In e argv_table -> sub_opt B"global" e = true -> json_sub_entry_ok [B"global"] e = true).
-    { intros e Hin Hsub. pose proof json_global_entries_ok as H. rewrite forallb_forall in H. apply H. apply filter_In. auto. }
-    destruct (dict_subs B"global" [B"global"] Hfacts l Hwf B"global" [] eq_refl) as [D1 D2].
+    assert (Hfacts : Forall (fun p => In (fst p) argv_table /\ sub_opt B"global" (fst p) = true /\
+                                      json_sub_entry_ok [B"global"] (fst p) = true) l).
+    { eapply Forall_impl; [|exact Hwf]. intros p0 [Hin Hsub]. split; [exact Hin|]. split; [exact Hsub|].
+      pose proof json_global_entries_ok as H. rewrite forallb_forall in H. apply H. apply filter_In. auto. }
+    destruct (dict_subs B"global" [B"global"] l Hfacts B"global" [] eq_refl) as [D1 D2].
     change (map (fun p : aentry * bstr => (camel (ae_flag (fst p)), JJStr (snd p))) l) with (map member_of l).
     destruct (D2 (j_emit (CCall C_MAIN B"global" []) s)) as [k Hk].
     destruct (global_begin_end (map member_of l) s) as [B1 _].
@@ -1019,6 +1219,20 @@ Proof.
                 (CCall C_MAIN B"global" []) (CCall C_GLOBAL B"endGlobal" []) G1 G2 G3 G4 G5 D1 B1
                 (fun s2 => proj2 (global_begin_end [] s2)) Hk) as [X1 [X2 X3]].
     split; [exact X1|]. split; [exact X2|]. exists k. rewrite X3.
+    destruct (denote_subs l) as [cs ok]. cbn [fst snd]. destruct ok; reflexivity.
+  - (* IEncrypt *)
+    cbn [wf_item] in Hwf. destruct Hwf as [Hb [Hu [Ho Hl]]].
+    change (map (fun p : aentry * bstr => (camel (ae_flag (fst p)), JJStr (snd p))) l) with (map member_of l).
+    destruct (enc_key_facts bits Hb) as [hkey [K1 [K2 [K3 [K4 [K5 [Kb [Ke [Hbegin Hentries]]]]]]]]].
+    assert (Hfacts : Forall (fun p => In (fst p) argv_table /\ sub_opt (enc_table bits) (fst p) = true /\
+                                      json_sub_entry_ok [ENC; enc_key bits] (fst p) = true) l).
+    { eapply Forall_impl; [|exact Hl]. intros p0 [Hin [Hsub Hnd]]. split; [exact Hin|]. split; [exact Hsub|].
+      rewrite forallb_forall in Hentries. apply Hentries. apply filter_In. split; [exact Hin|]. unfold enc_nd. rewrite Hsub, Hnd. reflexivity. }
+    destruct (dict_subs (enc_table bits) [ENC; enc_key bits] l Hfacts ENC [enc_key bits] eq_refl) as [D1 D2].
+    destruct (D2 (j_emit (CCall C_MAIN B"encrypt" [bits; u; o]) s)) as [k Hk].
+    destruct (encrypt_member (enc_key bits) hkey bits u o (map member_of l) (fst (denote_subs l)) (snd (denote_subs l)) k s
+                K1 K2 K3 K4 K5 Kb Ke (Hbegin _ _ _ _) D1 Hk) as [X1 [X2 X3]].
+    split; [exact X1|]. split; [exact X2|]. exists k. etransitivity; [exact X3|].
     destruct (denote_subs l) as [cs ok]. cbn [fst snd]. destruct ok; reflexivity.
 Qed.
 
@@ -1057,18 +1271,92 @@ Proof.
   - exists k. rewrite rev'_rev, j_emits_calls. cbn [j_calls]. rewrite app_nil_r, rev_involutive. reflexivity.
 Qed.
 
-(* nested_equivalent (see the FULL STATEMENT above argv_refines_spec_partial): command line and job JSON make the same Config calls,
-   and one is rejected as a usage error iff the other is *)
+(* ---- the only difference between the two call sequences: ArgParser::argEncrypt's preliminary encrypt(0, "", "") *)
+Definition is_enc0 (c : cfg_call) : bool :=
+  match c with CCall o m args => bstr_eqb o C_MAIN && bstr_eqb m B"encrypt" && blist_eqb args [B"0"; []; []] end.
+Definition strip_enc0 (l : list cfg_call) : list cfg_call := filter (fun c => negb (is_enc0 c)) l.
+
+Lemma strip_app : forall a b, strip_enc0 (a ++ b) = strip_enc0 a ++ strip_enc0 b.
+Proof. intros. unfold strip_enc0. apply filter_app. Qed.
+
+Lemma opt_denote_not_enc0 : forall e v c, opt_denote e v = Some c -> is_enc0 c = false.
+Proof.
+  intros e v c H. unfold opt_denote in H. destruct (ae_target e); [|discriminate].
+  destruct (ae_kind e); try discriminate.
+  - destruct v; inversion H; subst; cbn; rewrite ?andb_false_r; reflexivity.
+  - inversion H; subst; cbn. rewrite !andb_false_r. reflexivity.
+  - inversion H; subst; cbn. rewrite !andb_false_r. reflexivity.
+  - destruct (bmem v (ae_choices e)); inversion H; subst; cbn. rewrite !andb_false_r. reflexivity.
+  - destruct v; [inversion H; subst; cbn; rewrite !andb_false_r; reflexivity|].
+    destruct (bmem (n :: v) (ae_choices e)); inversion H; subst; cbn. rewrite !andb_false_r. reflexivity.
+Qed.
+
+Lemma strip_vals : forall e vs, strip_enc0 (fst (denote_vals e vs)) = fst (denote_vals e vs).
+Proof.
+  intros e. induction vs as [|v vs IH]; [reflexivity|]. cbn [denote_vals].
+  destruct (opt_denote e v) as [c|] eqn:Hc; [|reflexivity].
+  destruct (denote_vals e vs) as [cs ok]. cbn [fst] in *. cbn [strip_enc0 filter]. rewrite (opt_denote_not_enc0 e v c Hc). cbn [negb].
+  f_equal. exact IH.
+Qed.
+
+Lemma strip_subs : forall l, strip_enc0 (fst (denote_subs l)) = fst (denote_subs l).
+Proof.
+  induction l as [|[e v] l IH]; [reflexivity|]. cbn [denote_subs].
+  destruct (opt_denote e v) as [c|] eqn:Hc; [|reflexivity].
+  destruct (denote_subs l) as [cs ok]. cbn [fst] in *. cbn [strip_enc0 filter]. rewrite (opt_denote_not_enc0 e v c Hc). cbn [negb].
+  f_equal. exact IH.
+Qed.
+
+Lemma strip_item : forall it, wf_item argv_table it -> strip_enc0 (argv_calls_item it) = fst (denote_item it).
+Proof.
+  intros it Hwf. destruct it as [e v|e vs|f|f| | |l|u o bits l]; cbn [argv_calls_item denote_item].
+  - destruct (opt_denote e v) as [c|] eqn:Hc; [|reflexivity]. cbn [fst strip_enc0 filter]. rewrite (opt_denote_not_enc0 e v c Hc). reflexivity.
+  - apply strip_vals.
+  - reflexivity.
+  - reflexivity.
+  - reflexivity.
+  - reflexivity.
+  - pose proof (strip_subs l) as H. destruct (denote_subs l) as [cs ok]. cbn [fst] in *.
+    change (strip_enc0 (CCall B"c_main" B"global" [] :: cs ++ (if ok then [CCall B"c_global" B"endGlobal" []] else [])))
+      with (CCall B"c_main" B"global" [] :: strip_enc0 (cs ++ (if ok then [CCall B"c_global" B"endGlobal" []] else []))).
+    rewrite strip_app, H. destruct ok; reflexivity.
+  - cbn [wf_item] in Hwf. destruct Hwf as [Hb _].
+    pose proof (strip_subs l) as H. destruct (denote_subs l) as [cs ok]. cbn [fst] in *.
+    assert (He : is_enc0 (CCall B"c_main" B"encrypt" [bits; u; o]) = false).
+    { unfold valid_bits in Hb. apply orb_true_iff in Hb. destruct Hb as [Hb|Hb]; [apply orb_true_iff in Hb; destruct Hb as [Hb|Hb]|];
+        apply bstr_eqb_eq in Hb; subst bits; reflexivity. }
+    change (strip_enc0 (ENC0 :: CCall B"c_main" B"encrypt" [bits; u; o] :: cs ++ (if ok then [CCall B"c_enc" B"endEncrypt" []] else [])))
+      with (if negb (is_enc0 (CCall B"c_main" B"encrypt" [bits; u; o]))
+            then CCall B"c_main" B"encrypt" [bits; u; o] :: strip_enc0 (cs ++ (if ok then [CCall B"c_enc" B"endEncrypt" []] else []))
+            else strip_enc0 (cs ++ (if ok then [CCall B"c_enc" B"endEncrypt" []] else []))).
+    rewrite He. cbn [negb]. rewrite strip_app, H. destruct ok; reflexivity.
+Qed.
+
+Lemma strip_argv_calls : forall j, Forall (wf_item argv_table) j -> strip_enc0 (argv_calls j) = fst (denote_items j).
+Proof.
+  induction j as [|it j IH]; intros Hwf; [reflexivity|].
+  pose proof (Forall_inv Hwf) as Hit. pose proof (Forall_inv_tail Hwf) as Hj.
+  cbn [argv_calls denote_items]. pose proof (strip_item it Hit) as Hs.
+  destruct (denote_item it) as [cs ok]. cbn [fst snd] in *. destruct ok.
+  - rewrite strip_app, Hs, (IH Hj). destruct (denote_items j). reflexivity.
+  - exact Hs.
+Qed.
+
+(* nested_equivalent (see the FULL STATEMENT above argv_refines_spec_partial): command line and job JSON make the same Config calls
+   (the command line's preliminary encrypt(0, "", "") apart), and one is rejected as a usage error iff the other is *)
 Lemma nested_equivalent_partial_lemma : forall files j, wf_job argv_table j ->
-  r_calls (front_argv files (render_argv j)) = r_calls (front_json false (render_json j)) /\
+  strip_enc0 (r_calls (front_argv files (render_argv j))) = r_calls (front_json false (render_json j)) /\
   ((r_end (front_argv files (render_argv j)) = EFin /\ r_end (front_json false (render_json j)) = EFin) \/
    (exists k1 k2, r_end (front_argv files (render_argv j)) = EFront k1 /\ r_end (front_json false (render_json j)) = EFront k2)).
 Proof.
   intros files j Hwf. pose proof (argv_refines_spec_partial_lemma files j Hwf) as HA.
   destruct Hwf as [Hwf _]. pose proof (json_refines_spec_partial_lemma j Hwf) as HJ.
+  pose proof (strip_argv_calls j Hwf) as HS.
   unfold res_is in *. destruct (snd (denote_items j)).
-  - rewrite HA, HJ. cbn. split; [reflexivity|]. left. split; reflexivity.
-  - destruct HA as [k1 HA]. destruct HJ as [k2 HJ]. rewrite HA, HJ. cbn. split; [reflexivity|]. right. exists k1, k2. split; reflexivity.
+  - rewrite HA, HJ. cbn [r_calls r_end app]. split; [|left; split; reflexivity].
+    rewrite strip_app, HS. reflexivity.
+  - destruct HA as [k1 HA]. destruct HJ as [k2 HJ]. rewrite HA, HJ. cbn [r_calls r_end app]. split; [exact HS|].
+    right. exists k1, k2. split; reflexivity.
 Qed.
 
 (* usage_errors_agree: a job is rejected by the argv front end iff it is rejected by the JSON front end (same jobs as above) *)
@@ -1134,6 +1422,13 @@ Proof.
     cbn [fst snd]. rewrite app_assoc. reflexivity.
 Qed.
 
+Lemma argv_calls_app : forall a b, snd (denote_items a) = true -> argv_calls (a ++ b) = argv_calls a ++ argv_calls b.
+Proof.
+  induction a as [|it a IH]; intros b H; [reflexivity|].
+  cbn [app argv_calls denote_items] in *. destruct (denote_item it) as [cs ok]. cbn [snd]. destruct ok; [|discriminate].
+  destruct (denote_items a) as [cs2 ok2] eqn:Ha. cbn [fst snd] in *. rewrite (IH b H). rewrite app_assoc. reflexivity.
+Qed.
+
 Lemma json_partial_refines : forall j, Forall (wf_item argv_table) j -> snd (denote_items j) = true ->
   front_json true (render_json j) = mk_fe_res (fst (denote_items j)) EFin.
 Proof.
@@ -1142,42 +1437,41 @@ Proof.
   rewrite rev'_rev, j_emits_calls. cbn [j_calls]. rewrite app_nil_r, rev_involutive. reflexivity.
 Qed.
 
-Lemma wf_pos_app : forall a b gi go, wf_pos (a ++ b) gi go = true -> wf_pos a gi go = true.
-Proof.
-  induction a as [|it a IH]; intros b gi go H; [reflexivity|].
-  cbn [app wf_pos] in *. apply andb_true_iff in H. destruct H as [H1 H2]. rewrite H1. cbn. eapply IH. exact H2.
-Qed.
-
 (* FULL STATEMENT mixture_equivalent (DESIGN §5 C19): argv ++ --job-json-file(partial) is equivalent to the merged job, over all option tables.
    PROVED for the jobs of nested_equivalent_partial: the command line  <j1> --job-json-file=F <j3>  makes the calls of j1, then
    Config::jobJsonFile(F), then the calls of j3 and the consistency check; reading F as a partial job (initializeFromJson(.., true))
    where F holds the job JSON of j2 makes exactly the calls of j2 (and no consistency check); and the merged command line
-   <j1> <j2> <j3> makes the calls of j1, j2, j3 and the consistency check.  What Config::jobJsonFile does in between (reading the file,
-   JSON::parse) is outside the front-end model and exercised by the 'cli-mix' rendering of the end-to-end runs. *)
+   <j1> <j2> <j3> makes the calls of j1, j2, j3 and the consistency check - the same as what the JSON reading makes for j2, the
+   preliminary encrypt(0, "", "") apart.  What Config::jobJsonFile does in between (reading the file, JSON::parse) is outside the
+   front-end model and exercised by the 'cli-mix' rendering of the end-to-end runs. *)
 Lemma mixture_equivalent_partial_lemma : forall files e F j1 j2 j3,
   ae_target e = TConfig C_MAIN B"jobJsonFile" -> ae_kind e = KParam ->
   wf_job argv_table (j1 ++ [IOpt e F] ++ j3) -> wf_job argv_table (j1 ++ j2 ++ j3) ->
   snd (denote_items j1) = true -> snd (denote_items j2) = true -> snd (denote_items j3) = true ->
   front_argv files (render_argv (j1 ++ [IOpt e F] ++ j3)) =
-    mk_fe_res (fst (denote_items j1) ++ [CCall C_MAIN B"jobJsonFile" [F]] ++ fst (denote_items j3) ++ [CHECK]) EFin /\
+    mk_fe_res (argv_calls j1 ++ [CCall C_MAIN B"jobJsonFile" [F]] ++ argv_calls j3 ++ [CHECK]) EFin /\
   front_json true (render_json j2) = mk_fe_res (fst (denote_items j2)) EFin /\
   front_argv files (render_argv (j1 ++ j2 ++ j3)) =
-    mk_fe_res (fst (denote_items j1) ++ fst (denote_items j2) ++ fst (denote_items j3) ++ [CHECK]) EFin.
+    mk_fe_res (argv_calls j1 ++ argv_calls j2 ++ argv_calls j3 ++ [CHECK]) EFin /\
+  strip_enc0 (argv_calls j2) = fst (denote_items j2).
 Proof.
   intros files e F j1 j2 j3 Htg Hkind Hwf1 Hwf2 H1 H2 H3.
   assert (Hc : opt_denote e F = Some (CCall C_MAIN B"jobJsonFile" [F])).
   { unfold opt_denote. rewrite Htg, Hkind. reflexivity. }
-  split; [|split].
+  assert (Hwf2' : Forall (wf_item argv_table) j2).
+  { destruct Hwf2 as [Hwf2 _]. apply Forall_app in Hwf2. destruct Hwf2 as [_ Hwf2]. apply Forall_app in Hwf2. tauto. }
+  split; [|split; [|split]].
   - pose proof (argv_refines_spec_partial_lemma files _ Hwf1) as HA. unfold res_is in HA.
-    rewrite (denote_items_app j1 _ H1) in HA. cbn [fst snd] in HA.
-    cbn [app denote_items denote_item] in HA. rewrite Hc in HA.
+    rewrite (denote_items_app j1 _ H1) in HA. rewrite (argv_calls_app j1 _ H1) in HA. cbn [fst snd] in HA.
+    cbn [app denote_items denote_item argv_calls argv_calls_item] in HA. rewrite Hc in HA. cbn [fst snd] in HA.
     destruct (denote_items j3) as [cs3 ok3] eqn:H3'. cbn [fst snd] in *. subst ok3.
     cbn [fst snd app] in HA. cbn [app]. rewrite HA. rewrite <- app_assoc. reflexivity.
-  - destruct Hwf2 as [Hwf2 _]. apply json_partial_refines; auto.
-    apply Forall_app in Hwf2. destruct Hwf2 as [_ Hwf2]. apply Forall_app in Hwf2. tauto.
+  - apply json_partial_refines; auto.
   - pose proof (argv_refines_spec_partial_lemma files _ Hwf2) as HA. unfold res_is in HA.
     rewrite (denote_items_app j1 _ H1) in HA. rewrite (denote_items_app j2 _ H2) in HA. cbn [fst snd] in HA.
+    rewrite (argv_calls_app j1 _ H1) in HA. rewrite (argv_calls_app j2 _ H2) in HA.
     rewrite H3 in HA. rewrite HA. rewrite <- !app_assoc. reflexivity.
+  - apply strip_argv_calls. exact Hwf2'.
 Qed.
 
 (* the option table does contain that entry *)
